@@ -11,7 +11,7 @@ From Coq Require Import List Bool NArith ZArith.
 From Coq.Strings Require Import Byte String.
 From Verif Require Import Base.Bytes Idl.Ast Idl.Lex Idl.LexFacts Idl.Parse Idl.Dump
   Idl.DumpFacts Idl.DumpLexFacts Idl.DumpNumFacts Idl.DumpParseFacts Idl.DumpTopFacts Idl.DumpLitFacts
-  Idl.Resolve Idl.DumpResolveFacts.
+  Idl.Resolve Idl.DumpResolveFacts Idl.DumpProgramFacts.
 Import ListNotations.
 
 (* ---- string literals keep their exact characters (the escaping is exact).
@@ -129,6 +129,30 @@ Example C17_dump_passes_semantic_inhabited :
   (match resolve_program sem_sample with Ok _ => true | Error _ => false end) = true /\
   (match resolve_program (dumped_program sem_sample_fmt sem_sample) with Ok _ => true | Error _ => false end) = true.
 Proof. exact sem_sample_ok. Qed.
+
+(* ---- the property for whole programs, about the files the parser ACTUALLY returns for the dumped
+   texts (whatever comments it attaches; [reread p q]: every file of q is a result of parsing the
+   dumped text of the file of p with the same name, its include statements pointing to the same
+   files as before).  On the domain ([file_in_domain] = dump_ok and parsed_ok for every file):
+   the parser accepts every dumped file (a re-read program exists); every re-read file equals the
+   original on everything C17 lists; and every re-read program passes symbol resolution when the
+   original does, with the same result as far as resolution's view goes. *)
+Theorem C17_program_roundtrip :
+  forall (fmt : N -> bytes) (p r : program),
+  forallb (fun e => file_in_domain fmt (snd e)) p = true ->
+  resolve_program p = Ok r ->
+  (exists q, reread fmt p q) /\
+  forall q, reread fmt p q ->
+    Forall2 (fun e e' => fst e' = fst e /\ c17_norm (snd e') = c17_norm (snd e)) p q /\
+    exists r', resolve_program q = Ok r' /\
+               sem_view_program fmt r' = sem_view_program fmt (sem_view_program fmt r).
+Proof. exact program_roundtrip. Qed.
+Print Assumptions C17_program_roundtrip.
+
+Example C17_program_roundtrip_inhabited :
+  forallb (fun e => file_in_domain sem_sample_fmt (snd e)) sem_sample = true /\
+  (match resolve_program sem_sample with Ok _ => true | Error _ => false end) = true.
+Proof. exact program_roundtrip_sample. Qed.
 
 (* ---- the former known finding C17-empty-file-not-document is gone: a file with nothing to print
    is dumped as the empty text, lies in the domain, and is read back as the empty file (parser
